@@ -950,6 +950,10 @@ func c09Table(c *core.Ctx) {
 	if fn == nil {
 		return
 	}
+	// the table update may live in a helper of the service that UpdateHandlerSpec hands its two specs to, in order
+	if helper := c09TableHelper(c, sp, fn); helper != nil {
+		fn = helper
+	}
 	oldP, newP := an.ParamName(fn.Decl.Type, 0), an.ParamName(fn.Decl.Type, 1)
 	lookupKey, deleteKey, storeKey := "", "", ""
 	ast.Inspect(fn.Decl.Body, func(n ast.Node) bool {
@@ -975,4 +979,45 @@ func c09Table(c *core.Ctx) {
 		return true
 	})
 	c.Check(lookupKey == oldP+".ID" && deleteKey == lookupKey && storeKey == newP+".ID", "C09.table", "Service.UpdateHandlerSpec#keys", fn.Decl.Pos(), "the replaced handler is looked up under %q, the table entry deleted is %q, the new handler is stored under %q; they must be %s.ID, %s.ID, %s.ID: otherwise a renamed handler stays in the service's table and is registered again when its topic is restored — every event then also goes to a handler that no longer exists", lookupKey, deleteKey, storeKey, oldP, oldP, newP)
+}
+
+// c09TableHelper: the Service method called by entry with entry's first two parameters as its first two arguments, in order,
+// that deletes from s.handlers (nil if entry does that itself or no such call exists).
+func c09TableHelper(c *core.Ctx, sp *packages.Package, entry *core.Func) *core.Func {
+	info := sp.TypesInfo
+	deletes := func(f *core.Func) bool {
+		found := false
+		ast.Inspect(f.Decl.Body, func(n ast.Node) bool {
+			if call, ok := n.(*ast.CallExpr); ok && core.IsBuiltin(info, call, "delete") && len(call.Args) == 2 {
+				if inner, ok := ast.Unparen(call.Args[0]).(*ast.IndexExpr); ok && an.FieldSel(info, inner.X, "Service", "handlers") {
+					found = true
+				}
+			}
+			return true
+		})
+		return found
+	}
+	if deletes(entry) {
+		return nil
+	}
+	p0, p1 := an.ParamName(entry.Decl.Type, 0), an.ParamName(entry.Decl.Type, 1)
+	var helper *core.Func
+	ast.Inspect(entry.Decl.Body, func(n ast.Node) bool {
+		call, ok := n.(*ast.CallExpr)
+		if !ok || len(call.Args) < 2 {
+			return true
+		}
+		cal := core.Callee(info, call)
+		if cal == nil || core.RecvTypeName(cal) != "Service" {
+			return true
+		}
+		if types.ExprString(call.Args[0]) != p0 || types.ExprString(call.Args[1]) != p1 {
+			return true
+		}
+		if f := c.P.FindFunc("services/alert", "Service", cal.Name()); f != nil && deletes(f) {
+			helper = f
+		}
+		return true
+	})
+	return helper
 }
